@@ -126,11 +126,36 @@ def _two_exchanges(b1, b2, f1, f2, cuts):
     return ok and len(set(ids)) == len(ids)
 
 
+def _interim_response(code_i):
+    """D15: an interim 1xx response (103 Early Hints, 100 Continue, 102 Processing) precedes the final response on a persistent
+    connection; the next exchange follows on the same connection."""
+    from harness.fakeconn import FakeConnection
+    interim = pick([b'HTTP/1.1 103 Early Hints\r\nLink: </s.css>; rel=preload\r\n\r\n', b'HTTP/1.1 100 Continue\r\n\r\n', b'HTTP/1.1 102 Processing\r\n\r\n'], code_i)
+    m1 = b'HTTP/1.1 200 OK\r\nContent-Length: 5\r\n\r\nfirst'
+    m2 = b'HTTP/1.1 200 OK\r\nContent-Length: 6\r\n\r\nsecond'
+    fs = fakefs.FS()
+    rec = warcenv.new_recorder(fs)
+    conn = FakeConnection(interim + m1, [], address=('192.0.2.7', 80))
+    warcenv.http_exchange(rec, 'http://h.example/one', None, [], conn=conn)
+    conn.data = conn.data + m2                              # the answer to the second request arrives after that request
+    warcenv.http_exchange(rec, 'http://h.example/two', None, [], conn=conn)
+    records = warcenv.read_records(fs.files.get('out.warc'), False)
+    if records is None:
+        return False
+    resp = [r for r in records if warcenv.field(r, 'WARC-Type') == 'response']
+    by_url = {warcenv.field(r, 'WARC-Target-URI'): r['block'] for r in resp}
+    return len(resp) == 2 and by_url.get('http://h.example/one') in (m1, interim + m1) and by_url.get('http://h.example/two') == m2
+
+
 def _fx(**kw):
     return {k: str(v) for k, v in kw.items()}
 
 
 HARNESSES = [
+    H('interim_response', '_interim_response', 'code_i: int', pre=['0 <= code_i <= 2'], timeout={'quick': 90, 'thorough': 90}, finding='D15', samples=[],
+      funcs=['wpull/protocol/http/client.py:Session.start', 'wpull/protocol/http/stream.py:is_no_body'],
+      doc='an interim 1xx response before the final one on a persistent connection: each URL\'s response record holds the server\'s final '
+          'answer to THAT request (expected to fail: D15)'),
     H('response_block', '_response_block',
       'body: bytes, framing: int, cuts: List[int], lf_only: bool, spaces: int, lower: bool, fold: bool, dup: bool, extra: bool, overrun: int',
       pre={'quick': ['len(body) <= 2 and 0 <= framing <= 2 and len(cuts) <= 2 and 0 <= spaces <= 2 and 0 <= overrun <= 2'],
